@@ -46,8 +46,8 @@ _m = re.search(r"\nnni_aio_start\([^)]*\)\s*\{(.*?)\n\}", src("src/core/aio.c"),
 _b = _m.group(1) if _m else ""
 if not _m:
     missing.append("nni_aio_start body in src/core/aio.c")
-_z = bool(re.search(r"case\s+NNG_DURATION_ZERO:\s*timeout\s*=\s*true;", _b)) and bool(re.search(r"if\s*\(timeout\)\s*\{.*?NNG_ETIMEDOUT.*?return\s*\(false\);", _b, re.S))
-extra_text.append("Definition C15_AIO_START_REFUSES_ZERO_TIMEOUT : bool := %s.  (* aio.c nni_aio_start: timeout 0 => NNG_ETIMEDOUT, not queued *)"
+_z = bool(re.search(r"case\s+NNG_DURATION_ZERO:\s*timeout\s*=\s*true;", _b)) and bool(re.search(r"if\s*\(timeout(?:\s*&&\s*\(cancel\s*!=\s*NULL\))?\)\s*\{.*?NNG_ETIMEDOUT.*?return\s*\(false\);", _b, re.S))
+extra_text.append("Definition C15_AIO_START_REFUSES_ZERO_TIMEOUT : bool := %s.  (* aio.c nni_aio_start: timeout 0 => NNG_ETIMEDOUT, not queued (for every operation that has a cancel function, i.e. could wait; since fix 6c6b12b not for one without) *)"
                   % ("true" if _z else "false"))
 
 _P = "src/core/pollable.c"
